@@ -175,7 +175,7 @@ def build_from_recipe(recipe):
 def apply_transform(obj, name, args):
     """Transforming methods (return a new schema)."""
     if name == "add_columns":
-        return obj.add_columns({k: world.build_column(v, "pandas", with_name=False) for k, v in args["cols"].items()})
+        return obj.add_columns({k: world.build_column(v, args.get("backend", "pandas"), with_name=False) for k, v in args["cols"].items()})
     if name == "remove_columns":
         return obj.remove_columns(list(args["cols"]))
     if name == "update_column":
@@ -715,7 +715,17 @@ def gen_transform_args(name, s, rng):
             return None
         gg = world.SpecGen(rng, want_callbacks=0.3)
         return {"checks": [gg.builtin_check("int64")]}
-    if not is_df:
+    import pandera.polars as pap
+    is_pl_df = isinstance(o, pap.DataFrameSchema) and s.spec["backend"] == "polars"
+    if is_pl_df and name in ("add_columns", "remove_columns", "update_column", "update_columns", "rename_columns", "select_columns"):
+        gg = world.SpecGen(rng, want_callbacks=0.3, backend="polars")
+        if name == "add_columns":
+            return {"cols": {"added": gg.column("added", "polars")}, "backend": "polars"}
+        if name == "update_column":
+            if invalid or not cols:
+                return {"col": "nope", "kw": {"nullable": True}}
+            return {"col": rng.choice(cols), "kw": rng.choice([{"nullable": True}, {"coerce": True}, {"unique": True}, {"name": "zz"}])}
+    elif not is_df:
         return None
     gg = world.SpecGen(rng, want_callbacks=0.3)
     if name == "add_columns":
